@@ -789,6 +789,40 @@ func (w *c01World) viewVC(c vc.VerifiableCredential, tb *c01Tables) map[string]a
 	}
 	v["nProofs"] = len(c.Proof)
 	v["shapeOK"] = shapeOK(c)
+	// deepening round: the typed subjects exactly as the validators decode them (errors ignored, as the validators do); the model
+	// COMPUTES the type-specific shape verdict from these (NutsModel/C01/Subject.lean), `shapeOK` above stays as an independent cross-check
+	{
+		orgT := make([]credential.NutsOrganizationCredentialSubject, 0)
+		_ = c.UnmarshalCredentialSubject(&orgT)
+		so := map[string]any{"n": len(orgT)}
+		if len(orgT) > 0 {
+			so["id"] = orgT[0].ID
+			tb.did(orgT[0].ID)
+			so["orgNil"] = orgT[0].Organization == nil
+			if n, ok := orgT[0].Organization["name"]; ok {
+				so["orgName"] = n
+			}
+			if n, ok := orgT[0].Organization["city"]; ok {
+				so["orgCity"] = n
+			}
+		}
+		v["subjOrg"] = so
+		authT := make([]credential.NutsAuthorizationCredentialSubject, 0)
+		_ = c.UnmarshalCredentialSubject(&authT)
+		sa := map[string]any{"n": len(authT)}
+		if len(authT) > 0 {
+			sa["id"] = authT[0].ID
+			tb.did(authT[0].ID)
+			sa["purposeOfUse"] = authT[0].PurposeOfUse
+			rs := []any{}
+			for _, r := range authT[0].Resources {
+				ops := append([]string{}, r.Operations...)
+				rs = append(rs, map[string]any{"path": r.Path, "operations": ops})
+			}
+			sa["resources"] = rs
+		}
+		v["subjAuth"] = sa
+	}
 	claims := [][2]string{}
 	var cs any
 	bs, _ := json.Marshal(c.CredentialSubject)
